@@ -154,10 +154,11 @@ def join(a: AV, b: AV) -> AV:
     def _lit(v):
         return isinstance(v.cval, (int, float)) and v.unit is None and \
             v.kind is None and v.idx is None
+    idx = a.idx if a.idx == b.idx else None
     if _lit(a) and not _lit(b):
-        unit, kind = b.unit, b.kind
+        unit, kind, idx = b.unit, b.kind, b.idx
     elif _lit(b) and not _lit(a):
-        unit, kind = a.unit, a.kind
+        unit, kind, idx = a.unit, a.kind, a.idx
     return AV(num=join_num(a.num, b.num),
               exact=a.exact if a.exact == b.exact else
               (False if (a.exact is False or b.exact is False) else None),
@@ -166,7 +167,7 @@ def join(a: AV, b: AV) -> AV:
               elts=elts, elem=elem,
               cls=a.cls if a.cls == b.cls else None,
               unit=unit, kind=kind,
-              idx=a.idx if a.idx == b.idx else None,
+              idx=idx,
               scale=a.scale if a.scale == b.scale else None,
               src=a.src | b.src)
 
